@@ -1,0 +1,63 @@
+//go:build verif
+
+package dkv
+
+import (
+	"reduction.dev/reduction/dkv/sst"
+	"reduction.dev/reduction/util/vhook"
+)
+
+// verifTuneOptions overrides the sizes a caller hard-codes (the operator uses
+// the defaults) with the harness tuning, when one is installed.
+func verifTuneOptions(options DBOptions) DBOptions {
+	t := vhook.Tuning()
+	if t == nil {
+		return options
+	}
+	if t.MemTableSize != 0 {
+		options.MemTableSize = t.MemTableSize
+	}
+	if t.TargetFileSize != 0 {
+		options.TargetFileSize = t.TargetFileSize
+	}
+	if t.MaxWALSize != 0 {
+		options.MaxWALSize = t.MaxWALSize
+	}
+	if t.L0TableNumCompactionTrigger != 0 {
+		options.L0TableNumCompactionTrigger = t.L0TableNumCompactionTrigger
+	}
+	return options
+}
+
+func verifTuneCompactor(c *sst.Compactor) {
+	t := vhook.Tuning()
+	if t == nil || !t.TuneCompactor {
+		return
+	}
+	c.MaxSizeAmplificationPercent = t.MaxSizeAmplificationPercent
+	if t.SmallestLevelSize != 0 {
+		c.SmallestLevelSize = t.SmallestLevelSize
+	}
+	if t.LevelSizeMultiplier != 0 {
+		c.LevelSizeMultiplier = t.LevelSizeMultiplier
+	}
+}
+
+// VerifLayout describes the current structure of the database for evidence and
+// for the file-retention monitor.
+type VerifLayout struct {
+	Levels       [][]sst.TableDocument
+	MemTables    int // including the active one
+	SeqNum       uint64
+	LatestSeqNum uint64
+}
+
+func (db *DB) VerifLayout() VerifLayout {
+	ll := db.currentSSTables()
+	return VerifLayout{
+		Levels:       ll.Document(),
+		MemTables:    len(db.mtables.Sealed()) + 1,
+		SeqNum:       db.seqNum,
+		LatestSeqNum: ll.LatestSeqNum,
+	}
+}
